@@ -12,6 +12,19 @@ COMMON_NOTE = (
 )
 
 CHECKS = {
+    "C17": dict(
+        technique="bounded-exhaustive enumeration of templates from a TAL/METAL grammar, executed by the real compiler+interpreter and compared with an independent reference evaluator; structural check of every compiled program; deviation-bounded DFS over the answers of the expression evaluator",
+        text="One element with every consistent subset of the six TAL commands and every expression of per-command menus (thorough: full cross; quick: full cross on the interacting axes), parent x child pairs, nested repeats and METAL macros/slots are compiled and expanded by simpleTAL and compared, as parsed event streams, with a separately written TAL/TALES evaluator; "
+             "every compiled program must have balanced scopes and every jump symbol must point at the end of the element that owns the command; the interpreter is run with every evaluation site answered from 10 values (None, default, strings, numbers, empty/non-empty sequences, iterables) within the deviation bound and must terminate with program counter, stacks and context restored and well-nested output.",
+        design_ref="DESIGN.md 3/C17",
+    ),
+    "C18": dict(
+        technique="bounded-exhaustive enumeration of context values x substitution positions (skeleton differential), python: expression positions with a side-effect canary, TAL-free documents from a grammar (equivalence and idempotence), context snapshots around every expansion",
+        text="Every value of <=2 (quick) / <=3 (thorough) metacharacters is substituted through 12 templates covering text, attributes, repeat items, defines, string: expressions and macro slots: the output skeleton must equal the one for inert data and the value must come back as data; "
+             "a python: expression with a side-effect canary is placed in 20 expression positions with Python paths off (never evaluated) and on (evaluated: the test bites); TAL-free documents from a grammar (void elements, boolean attributes, entities, comments, doctype, PI, script/style, upper case, unclosed p/li, three-deep nesting) must expand to equivalent documents and a second expansion must change nothing; "
+             "the caller's locals, stacks, repeat map and globals are compared before and after expanding the C17 template families.",
+        design_ref="DESIGN.md 3/C18",
+    ),
     "C08": dict(
         technique="bounded-exhaustive enumeration of link files / .cap files (block shapes, ordered pairs and triples, all line permutations, extension-stripping modes) with a reference reading of the manual applied on top of the metadata-free listing, on the implementation",
         text="Link files of 1-3 blocks over 25 block shapes (overrides of ./name with each field, hide codes X and -, Host/Port +, one-line and continued abstracts, new entries with absolute, relative and URL: paths, positive, equal, zero and negative Numb, comments), in one file and split over two, "
